@@ -357,7 +357,8 @@ func randGraph(r *lib.Rng, tier string) *Case {
 
 var graphInj = []string{"reserved", "dup-node", "need-state", "nodekey-opt", "end-as-start", "start-as-end",
 	"edge-unknown-start", "edge-unknown-end", "dup-edge", "branch-unknown-start", "branch-from-end", "branch-one",
-	"branch-unknown-end", "cycle", "no-start", "no-end", "uninferable", "maxsteps-dag", "early-compile", "self-loop", "branch-empty"}
+	"branch-unknown-end", "cycle", "no-start", "no-end", "uninferable", "maxsteps-dag", "early-compile", "self-loop", "branch-empty",
+	"multi-pred", "multi-pred", "multi-pred-cycle", "multi-pred-cycle"}
 
 func injectGraph(r *lib.Rng, c *Case, keys []string) {
 	kind := graphInj[r.Intn(len(graphInj))]
@@ -373,6 +374,52 @@ func injectGraph(r *lib.Rng, c *Case, keys []string) {
 	}
 	ins := func(call Call) { c.Calls = insertAt(c.Calls, injPos(r, c.Calls), call) }
 	switch kind {
+	case "multi-pred", "multi-pred-cycle":
+		// a node reached more than once from the same predecessor (an edge beside a branch, or two
+		// branches), off or on a cycle, compiled in all-predecessor mode: the counters of
+		// validateDAG have to treat every edge and every branch target alike
+		from := src()
+		x, y, b := "mx", "my", "mb"
+		calls := []Call{{Op: "addnode", Key: x, Kind: "lambda"}, {Op: "addnode", Key: y, Kind: "lambda"}, {Op: "addnode", Key: b, Kind: "lambda"}}
+		var links []Call
+		switch r.Intn(3) {
+		case 0:
+			links = append(links, Call{Op: "addedge", From: from, To: x}, Call{Op: "addbranch", From: from, Ends: []string{x, y}})
+		case 1:
+			links = append(links, Call{Op: "addbranch", From: from, Ends: []string{x, y}}, Call{Op: "addbranch", From: from, Ends: []string{x, "end"}})
+		default:
+			links = append(links, Call{Op: "addedge", From: from, To: x}, Call{Op: "addbranch", From: from, Ends: []string{x, y}},
+				Call{Op: "addbranch", From: from, Ends: []string{x, y, "end"}})
+		}
+		links = append(links, Call{Op: "addedge", From: x, To: b}, Call{Op: "addedge", From: b, To: "end"}, Call{Op: "addedge", From: y, To: "end"})
+		if kind == "multi-pred-cycle" {
+			switch r.Intn(3) {
+			case 0:
+				links = append(links, Call{Op: "addedge", From: b, To: x})
+			case 1:
+				links = append(links, Call{Op: "addbranch", From: b, Ends: []string{x, "end"}})
+			default:
+				links = append(links, Call{Op: "addedge", From: x, To: x})
+			}
+		}
+		links = shuffle(r, links)
+		lo := 0 // after the node declarations, so that [from] exists (unless the case was shuffled)
+		for i, k := range c.Calls[:firstCompile(c.Calls)] {
+			if k.Op == "addnode" {
+				lo = i + 1
+			}
+		}
+		p := r.Range(lo, firstCompile(c.Calls))
+		all := append(calls, links...)
+		for j := len(all) - 1; j >= 0; j-- {
+			c.Calls = insertAt(c.Calls, p, all[j])
+		}
+		for i := range c.Calls {
+			if c.Calls[i].Op == "compile" && !r.Chance(1, 5) {
+				c.Calls[i].Trigger = "all"
+				c.Calls[i].MaxSteps = 0
+			}
+		}
 	case "reserved":
 		ins(Call{Op: "addnode", Key: []string{"start", "end"}[r.Intn(2)], Kind: randKind(r)})
 	case "dup-node":
@@ -762,7 +809,8 @@ func randWorkflow(r *lib.Rng, tier string) *Case {
 var wfInj = []string{"input-unknown-from", "dup-input", "whole-twice", "field-twice", "branch-unknown-end", "branch-one",
 	"branch-unknown-start", "cycle", "no-end", "no-start", "addend-dup-target", "addend", "reserved", "dup-node", "need-state",
 	"trigger-opt", "maxsteps", "early-compile", "input-from-end", "input-to-start-key", "two-failing-nodes",
-	"static-after-compile", "static-conflict", "static-on-end", "whole-after-field", "dup-data-edge", "dup-ctrl-edge", "field-dup-in-call"}
+	"static-after-compile", "static-conflict", "static-on-end", "whole-after-field", "dup-data-edge", "dup-ctrl-edge", "field-dup-in-call",
+	"multi-pred", "multi-pred", "multi-pred-cycle"}
 
 func injectWorkflow(r *lib.Rng, c *Case, keys []string) {
 	kind := wfInj[r.Intn(len(wfInj))]
@@ -852,6 +900,32 @@ func injectWorkflow(r *lib.Rng, c *Case, keys []string) {
 			calls = append(calls, Call{Op: "addinput", To: "dd", From: any(), In: "dep"})
 		}
 		p := r.Range(0, firstCompile(c.Calls))
+		for j := len(calls) - 1; j >= 0; j-- {
+			c.Calls = insertAt(c.Calls, p, calls[j])
+		}
+	case "multi-pred", "multi-pred-cycle":
+		// a node that depends on a predecessor AND is a target of that predecessor's branch(es) (the
+		// usual Workflow pattern), off or on a dependency cycle
+		from := any()
+		x, y, b := "mx", "my", "mb"
+		calls := []Call{{Op: "addnode", Key: x, Kind: "lambda"}, {Op: "addnode", Key: y, Kind: "lambda"}, {Op: "addnode", Key: b, Kind: "lambda"},
+			{Op: "addinput", To: x, From: from, In: []string{"normal", "nodirect", "normal"}[r.Intn(3)], Fields: []string{"A"}},
+			{Op: "addinput", To: y, From: from, In: "nodirect"},
+			{Op: "addbranch", From: from, Ends: []string{x, y}},
+			{Op: "addinput", To: b, From: x, In: "normal"}}
+		if r.Chance(1, 2) {
+			calls = append(calls, Call{Op: "addbranch", From: from, Ends: []string{x, "end"}})
+		}
+		if kind == "multi-pred-cycle" {
+			calls = append(calls, Call{Op: "addinput", To: x, From: b, In: "dep"})
+		}
+		lo := 0
+		for i, k := range c.Calls[:firstCompile(c.Calls)] {
+			if k.Op == "addnode" && k.Key == from {
+				lo = i + 1
+			}
+		}
+		p := r.Range(lo, firstCompile(c.Calls))
 		for j := len(calls) - 1; j >= 0; j-- {
 			c.Calls = insertAt(c.Calls, p, calls[j])
 		}
